@@ -297,3 +297,23 @@ PROPERTIES["C17"] = {
          "encoded": ["nano::parallel::pool_t::map(elements, chunksize, op, raise) [inline path]", "nano::parallel::pool_t::map(elements, op, raise) [inline path]", "nano::parallel::pool_t::size"]},
     ],
 }
+
+PROPERTIES["C15"] = {
+    "level": "model_checking",
+    "level_text": "bounded model checking of the lifted content-hash kernel of the tensor stream format: for all payloads of <= 3 elements (<= 4 bytes for uint8) and every alteration of the LAST element the stored hash changes, so the reader's hash comparison rejects it; the same obligation for NON-final elements is false on the real code and recorded as a known finding",
+    "level_note": LIFT_NOTE,
+    "technique": LIFT_TECH,
+    "explanation": "C15 (payload-corruption clause, hash kernel): nano::detail::hash<T>/hash_combine lifted and decided bit-precisely for int64, float64 (as bits), int32 and uint8 payloads.",
+    "assumptions": ["payload length <= 3 elements (uint8: <= 4)"],
+    "bounds": {"elements": "<= 3 (uint8: 4)", "unwind": "4..6"},
+    "outside": ["round-trip and truncation rejection of nano::read/write(std::istream&, tensor) and of all model-level readers (std::istream, virtual factories, strings of type ids): not lifted (libstdc++ stream internals); see DESIGN.md",
+                "bit-identical predictions of re-read models"],
+    "units": [
+        {"engine": "lift", "name": "C15_hash", "shim": "C15_shim.cpp", "driver": "C15_drv.c", "roots": ["k_hash_i64", "k_hash_i32", "k_hash_f64", "k_hash_f32", "k_hash_u8"],
+         "quick": [{"func": "h_last_i64", "unwind": 5, "desc": "int64 payload, last element altered arbitrarily"}, {"func": "h_last_f64", "unwind": 5, "desc": "float64 payload (bits)"},
+                   {"func": "h_last_i32", "unwind": 5, "desc": "int32 payload"}, {"func": "h_last_u8", "unwind": 6, "desc": "uint8 payload"},
+                   {"func": "h_nonfinal_i64", "unwind": 4, "desc": "single-byte alteration of a non-final element (known finding: collisions exist)"}],
+         "encoded": ["nano::detail::hash<int64_t/int32_t/double/float/uint8_t>", "nano::detail::hash_combine"]},
+    ],
+}
+PROPERTIES["C15"]["units"][0]["thorough"] = PROPERTIES["C15"]["units"][0]["quick"]
